@@ -63,7 +63,10 @@ class GeckoAsyncUdpProtocol(asyncio.DatagramProtocol):
             "GeckoAsyncUdpProtocol: connection lost from %s (%s)", self.transport, exc
         )
         self.transport = None
-        if self._on_connection_lost is not None:
+        if (
+            self._on_connection_lost is not None
+            and not self._on_connection_lost.done()
+        ):
             self._on_connection_lost.set_result(True)
 
     def error_received(self, exc) -> None:
